@@ -27,8 +27,8 @@ import (
 // the highest-numbered revision controlled by its Composition, restricted by
 // its revision selector.
 //
-//gosym:harness
-//gosym:cover manual automatic moved selector-restricted foreign-revision-ignored
+//gosym:harness panics
+//gosym:cover manual automatic moved selector-restricted foreign-revision-ignored empty-selector
 func HarnessC12Fetch() {
 	s := kube.New()
 	const group = "apiextensions.crossplane.io"
@@ -96,6 +96,10 @@ func HarnessC12Fetch() {
 	selector := (policy == 2 || manualWithRef) && zz.Bool("revisionSelector")
 	if selector {
 		xr.SetCompositionRevisionSelector(&metav1.LabelSelector{MatchLabels: map[string]string{"channel": "stable"}})
+	} else if policy == 2 && zz.Bool("revisionSelector.withoutLabels") {
+		// a selector that names no labels (`compositionRevisionSelector: {}`) restricts nothing
+		zz.Cover("empty-selector")
+		xr.SetCompositionRevisionSelector(&metav1.LabelSelector{})
 	}
 	s.Put(xr)
 	xr = zzReadXR(s)
